@@ -695,6 +695,9 @@ func (tb *TB) Bin(op Op, a, b *Term) *Term {
 		panic(fmt.Sprintf("symgo: width mismatch in %v: %d vs %d", op, a.w, b.w))
 	}
 	w := a.w
+	if !tb.NoSimp {
+		a, b = tb.pointConst(a), tb.pointConst(b)
+	}
 	if a.op == OpConst && b.op == OpConst {
 		if v, ok := evalBin(op, w, a.val, b.val); ok {
 			return K(w, v)
@@ -755,6 +758,11 @@ func (tb *TB) Bin(op Op, a, b *Term) *Term {
 			if op == OpSDiv && ia.nonNeg() && ib.nonNeg() {
 				op = OpUDiv
 			}
+			if op == OpSDiv {
+				if r := tb.narrowSDiv(op, a, b, ia, ib); r != nil {
+					return r
+				}
+			}
 			if op == OpUDiv {
 				if ib.ulo > 0 && ia.uhi < ib.ulo {
 					tb.fire("udiv-small")
@@ -774,6 +782,11 @@ func (tb *TB) Bin(op Op, a, b *Term) *Term {
 			ia, ib := tb.IV(a), tb.IV(b)
 			if op == OpSRem && ia.nonNeg() && ib.nonNeg() {
 				op = OpURem
+			}
+			if op == OpSRem {
+				if r := tb.narrowSDiv(op, a, b, ia, ib); r != nil {
+					return r
+				}
 			}
 			if op == OpURem {
 				if ib.ulo > 0 && ia.uhi < ib.ulo {
@@ -845,7 +858,72 @@ func (tb *TB) Bin(op Op, a, b *Term) *Term {
 			a, b = b, a
 		}
 	}
+	if !tb.NoSimp && tb.Heavy != nil && w >= 16 {
+		switch op {
+		case OpMul, OpUDiv, OpURem, OpSDiv, OpSRem:
+			if w >= 32 || op != OpMul {
+				if r := tb.Heavy(op, a, b); r != nil {
+					return r
+				}
+			}
+		}
+	}
 	return tb.mk(op, w, 0, tb.ck(a), tb.ck(b), nil, nil)
+}
+
+// pointConst replaces a term whose interval is a single value by that constant.
+func (tb *TB) pointConst(t *Term) *Term {
+	if t.op == OpConst || t.w == 0 {
+		return t
+	}
+	iv := tb.IV(t)
+	if iv.ulo == iv.uhi {
+		tb.fire("point-const")
+		return K(t.w, iv.ulo)
+	}
+	return t
+}
+
+// Rebuild re-applies the constructors bottom-up (after refinements made some
+// sub-terms constant).
+func (tb *TB) Rebuild(t *Term, memo map[*Term]*Term) *Term {
+	if t.op == OpConst {
+		return t
+	}
+	if r, ok := memo[t]; ok {
+		return r
+	}
+	var r *Term
+	switch t.op {
+	case OpVar:
+		r = tb.pointConst(t)
+	case OpEq, OpULt, OpULe, OpSLt, OpSLe:
+		r = tb.Cmp(t.op, tb.Rebuild(t.a, memo), tb.Rebuild(t.b, memo))
+	case OpBAnd:
+		r = tb.And(tb.Rebuild(t.a, memo), tb.Rebuild(t.b, memo))
+	case OpBOr:
+		r = tb.Or(tb.Rebuild(t.a, memo), tb.Rebuild(t.b, memo))
+	case OpBNot:
+		r = tb.Not(tb.Rebuild(t.a, memo))
+	case OpIte:
+		r = tb.Ite(tb.Rebuild(t.a, memo), tb.Rebuild(t.b, memo), tb.Rebuild(t.c, memo))
+	case OpNot:
+		r = tb.BvNot(tb.Rebuild(t.a, memo))
+	case OpNeg:
+		r = tb.Neg(tb.Rebuild(t.a, memo))
+	case OpZext:
+		r = tb.Zext(tb.Rebuild(t.a, memo), t.w)
+	case OpSext:
+		r = tb.Sext(tb.Rebuild(t.a, memo), t.w)
+	case OpExtract:
+		r = tb.Extract(tb.Rebuild(t.a, memo), uint8(t.val), t.w)
+	case OpTable:
+		r = tb.TableLookup(t.tbl, tb.Rebuild(t.a, memo))
+	default:
+		r = tb.Bin(t.op, tb.Rebuild(t.a, memo), tb.Rebuild(t.b, memo))
+	}
+	memo[t] = r
+	return r
 }
 
 // narrowDiv performs udiv/urem in a narrower width when both operands provably fit.
@@ -877,6 +955,32 @@ func (tb *TB) narrowDiv(op Op, a, b *Term, ia, ib ivl) *Term {
 		return K(a.w, v)
 	}
 	return tb.Zext(tb.Bin(op, na, nb), a.w)
+}
+
+// narrowSDiv performs sdiv/srem by a positive divisor in a narrower width when
+// both operands provably fit as signed values (so MIN/-1 cannot occur).
+func (tb *TB) narrowSDiv(op Op, a, b *Term, ia, ib ivl) *Term {
+	if a.w <= 16 || ib.slo <= 0 {
+		return nil
+	}
+	var nw uint8
+	for _, k := range []uint8{16, 32} {
+		if k < a.w && ia.slo > minS(k) && ia.shi <= maxS(k) && ib.shi <= maxS(k) {
+			nw = k
+			break
+		}
+	}
+	if nw == 0 {
+		return nil
+	}
+	tb.fire("narrow-sdiv")
+	na := tb.Extract(a, 0, nw)
+	nb := tb.Extract(b, 0, nw)
+	if na.op == OpConst && nb.op == OpConst {
+		v, _ := evalBin(op, nw, na.val, nb.val)
+		return K(a.w, uint64(sext(v, nw)))
+	}
+	return tb.Sext(tb.Bin(op, na, nb), a.w)
 }
 
 func evalBin(op Op, w uint8, x, y uint64) (uint64, bool) {
@@ -1019,6 +1123,9 @@ func (tb *TB) narrowS(a *Term, k uint8) *Term {
 func (tb *TB) Cmp(op Op, a, b *Term) *Term {
 	if a.w != b.w {
 		panic(fmt.Sprintf("symgo: width mismatch in cmp: %d vs %d", a.w, b.w))
+	}
+	if !tb.NoSimp && a.w != 0 {
+		a, b = tb.pointConst(a), tb.pointConst(b)
 	}
 	if a.op == OpConst && b.op == OpConst {
 		return KB(evalCmp(op, a.w, a.val, b.val))
@@ -1324,7 +1431,13 @@ func (tb *TB) Extract(a *Term, lo uint8, w uint8) *Term {
 
 // TableLookup: tbl.vals[idx]; idx must be provably in range (caller checks).
 func (tb *TB) TableLookup(tbl *Table, idx *Term) *Term {
+	if !tb.NoSimp {
+		idx = tb.pointConst(idx)
+	}
 	if idx.op == OpConst {
+		if idx.val >= uint64(len(tbl.vals)) {
+			return K(tbl.w, 0)
+		}
 		return K(tbl.w, tbl.vals[idx.val])
 	}
 	return tb.mk(OpTable, tbl.w, 0, idx, nil, nil, tbl)
